@@ -32,6 +32,8 @@ var genSwitches = map[string]bool{
 	"def.scalar":        false, // named plain scalar definition (`type UserName string`) referenced from members
 	"sharedshape":       false, // the same union type drawn again for another member (clone of an earlier one)
 	"int.nullablePlain": false, // forced only: nullable unbounded int64 (JSON Schema type-array spelling)
+	// off by default, switched on by C01's c01-rows stream only (the other lab checks keep their term distribution)
+	"union.consts": true, // member typed by a union of constants / of references to small enums (`0 | 1`, `#Off | #Level`, oneOf of consts), required and optional, the Go zero value among the members
 	// off by default: each is a known trouble spot of cog or of a schema language
 	"struct.empty":           true, // every front-end maps a property-less object to `any`
 	"def.scalar.constrained": true, // named scalar alias WITH bounds / length limits (constraints on it are never validated, C08)
@@ -175,6 +177,7 @@ func genDefs(seed uint64, index int, o GenOpts) *Defs {
 			g.force(forceList[(index*3+k)%n])
 		}
 		g.force2(forceList2[index%len(forceList2)])
+		g.forceConstUnion(index)
 	}
 	g.linkUnreferenced()
 	g.fixStrconv()
@@ -322,6 +325,9 @@ func (g *srcGen) genField(name string, depth int) Field {
 	if f.Nullable && g.o.avoid("elem.nullable.underNullable") && hasNullableElem(f.Ty) {
 		f.Nullable = false
 	}
+	if f.Nullable && g.d.srcEnumLikeUnion(f.Ty) {
+		f.Nullable = false // `null | "a" | "b"`: a known compile failure of the Go output (see the CUE printer)
+	}
 	return f
 }
 
@@ -338,6 +344,7 @@ func (g *srcGen) genTy(depth int, guarded bool) *Src {
 	if depth < g.o.MaxDepth {
 		choices = append(choices, wchoice{"array", 10}, wchoice{"dict", 7}, wchoice{"struct.nested", 6}, wchoice{"oneOfScalars", 5}, wchoice{"oneOfStructs", 4})
 	}
+	choices = append(choices, wchoice{"union.consts", 6}) // avoided unless switched on
 	total := 0
 	ok := choices[:0:0]
 	for _, c := range choices {
@@ -400,8 +407,144 @@ func (g *srcGen) genTy(depth int, guarded bool) *Src {
 		return g.genOneOfScalars()
 	case "oneOfStructs":
 		return g.genOneOfStructs()
+	case "union.consts":
+		return g.genConstUnion(-1)
 	}
 	return srcBool()
+}
+
+// srcEnumLikeUnion: a union whose alternatives are constants, booleans, enums or references to enums.
+func (d *Defs) srcEnumLikeUnion(s *Src) bool {
+	if s == nil || s.Kind != SOneOfScalars || len(s.Alts) == 0 {
+		return false
+	}
+	for _, a := range s.Alts {
+		switch a.Kind {
+		case SConst, SEnumS, SEnumI, SBool:
+		case SRef:
+			if t := d.lookup(a.Ref); t == nil || (t.Kind != SEnumS && t.Kind != SEnumI) {
+				return false
+			}
+		default:
+			return false
+		}
+	}
+	return true
+}
+
+// genConstUnion (switch union.consts): the type of a member that is a union of constants, of references to
+// small enums of one base type, or a mix of both - the shapes cog's DisjunctionOfConstantsToEnum merges into
+// ONE enum - and, for booleans, `false | true` (merged into a plain bool by DisjunctionToType). The Go zero
+// value (0 / "" / false) is among the members most of the time. flavour < 0: drawn.
+func (g *srcGen) genConstUnion(flavour int) *Src {
+	if flavour < 0 {
+		flavour = g.r.intn(10)
+	}
+	s := &Src{Kind: SOneOfScalars}
+	ints := func(n int, zero bool) []int64 {
+		out, seen := []int64{}, map[int64]bool{}
+		if zero {
+			out, seen[0] = append(out, 0), true
+		}
+		for len(out) < n {
+			v := int64(g.r.intn(10))
+			if !seen[v] {
+				seen[v] = true
+				out = append(out, v)
+			}
+		}
+		return out
+	}
+	strs := func(n int, empty bool) []string {
+		out, seen := []string{}, map[string]bool{}
+		if empty {
+			out = append(out, "")
+		}
+		for len(out) < n {
+			v := pick(g.r, enumStrPool)
+			if k := normName(v); !seen[k] {
+				seen[k] = true
+				out = append(out, v)
+			}
+		}
+		return out
+	}
+	shuffleI := func(v []int64) {
+		for i := len(v) - 1; i > 0; i-- {
+			j := g.r.intn(i + 1)
+			v[i], v[j] = v[j], v[i]
+		}
+	}
+	enumDef := func(ty *Src) *Src {
+		name := g.newDef("unionmember") // never picked by genRef: a direct reference to a one-member enum is a known-bad construct
+		g.filled[name] = true
+		g.d.Items[g.d.defIndex(name)].Ty = ty
+		return srcRef(name)
+	}
+	zero := g.r.chance(75)
+	switch {
+	case flavour < 3 && !g.o.avoid("const.int"): // integer constants
+		v := ints(2+g.r.intn(3), zero)
+		shuffleI(v)
+		for _, x := range v {
+			s.Alts = append(s.Alts, srcConst(jInt(x)))
+		}
+	case flavour < 6 && !g.o.avoid("const.string"): // string constants
+		v := strs(2+g.r.intn(2), zero)
+		if g.r.chance(50) {
+			v[0], v[len(v)-1] = v[len(v)-1], v[0]
+		}
+		for _, x := range v {
+			s.Alts = append(s.Alts, srcConst(jStr(x)))
+		}
+	case flavour < 9 && !g.o.avoid("ref") && !g.o.avoid("def.enum"): // references to enums, a constant mixed in at times
+		if g.r.chance(50) && !g.o.avoid("enumI") {
+			// the first alternative is a constant or an enum of one or two members; the second enum keeps two
+			// members at least (`0 | #Six` with `#Six: 6` is `0 | 6` to CUE: "numeric enums may only be
+			// generated from memberNames attribute")
+			v := ints(3+g.r.intn(2), zero)
+			cut := 1 + g.r.intn(len(v)-2)
+			if g.r.chance(30) && !g.o.avoid("const.int") {
+				cut = 1
+				s.Alts = append(s.Alts, srcConst(jInt(v[0])))
+			} else {
+				s.Alts = append(s.Alts, enumDef(srcEnumI(v[:cut]...)))
+			}
+			s.Alts = append(s.Alts, enumDef(srcEnumI(v[cut:]...)))
+		} else {
+			v := strs(3+g.r.intn(2), zero)
+			cut := 1 + g.r.intn(2)
+			if g.r.chance(30) && !g.o.avoid("const.string") {
+				cut = 1
+				s.Alts = append(s.Alts, srcConst(jStr(v[0])))
+			} else {
+				s.Alts = append(s.Alts, enumDef(srcEnumS(v[:cut]...)))
+			}
+			s.Alts = append(s.Alts, enumDef(srcEnumS(v[cut:]...)))
+		}
+	default: // `false | true`
+		if g.o.avoid("const.bool") {
+			return srcBool()
+		}
+		s.Alts = []*Src{srcConst(jBool(false)), srcConst(jBool(true))}
+		if g.r.chance(50) {
+			s.Alts[0], s.Alts[1] = s.Alts[1], s.Alts[0]
+		}
+	}
+	return s
+}
+
+// forceConstUnion (switch union.consts): an optional and a required member of the root typed by such a union.
+func (g *srcGen) forceConstUnion(index int) {
+	if g.o.avoid("union.consts") || index%2 != 0 {
+		return
+	}
+	g.cur = 0
+	fl := (index / 2) % 10
+	g.addRootField(Field{Ty: g.genConstUnion(fl), Required: g.o.avoid("field.optional")})
+	if g.r.chance(60) {
+		g.addRootField(Field{Ty: g.genConstUnion(fl), Required: true})
+	}
 }
 
 func hasNullableElem(s *Src) bool {
@@ -493,7 +636,7 @@ func (g *srcGen) genLeaf() *Src {
 func (g *srcGen) genRef(guarded bool) *Src {
 	cands := []string{}
 	for j, it := range g.d.Items {
-		if g.pendKind[it.Name] == "branch" {
+		if g.pendKind[it.Name] == "branch" || g.pendKind[it.Name] == "unionmember" {
 			continue
 		}
 		if j > g.cur {
@@ -1136,6 +1279,8 @@ func (d *Defs) scalarLike(e *Src) bool {
 	switch e.Kind {
 	case SAny, SBool, SString, SConst, SInt, SNum, SEnumS, SEnumI:
 		return true
+	case SOneOfScalars:
+		return d.srcEnumLikeUnion(e) // merged into one enum (or a bool) by the Go chain
 	}
 	return false
 }
@@ -1218,6 +1363,14 @@ func (g *srcGen) linkUnreferenced() {
 		}
 		if missing == "" {
 			return
+		}
+		if g.pendKind[missing] == "unionmember" {
+			// an enum created for a union of references whose member was discarded afterwards (a map of
+			// struct-like values redrawn, a clashing field of a union branch): nothing refers to it and a
+			// direct reference to a one-member enum is a known-bad construct, so the definition goes too
+			j := g.d.defIndex(missing)
+			g.d.Items = append(g.d.Items[:j:j], g.d.Items[j+1:]...)
+			continue
 		}
 		ty := srcRef(missing)
 		if g.d.lookup(missing).Kind == SStruct && !g.o.avoid("array") && g.r.chance(25) {
@@ -1393,6 +1546,9 @@ func (g *srcGen) defaultFor(dg *docGen, ty *Src) (JV, bool) {
 		}
 		return out, true
 	case SOneOfScalars:
+		if g.d.srcEnumLikeUnion(t) {
+			return JV{}, false // defaults on the merged enum are C10's subject; C01's terms stay without
+		}
 		return dg.val(t, 0), true
 	}
 	return JV{}, false
